@@ -69,7 +69,7 @@ MULTIFETCHFULL = {"id": "multifetch-full", "func": "VerifMultiFetch", "pkg": NOD
              "must_cover": ["all-fetched"], "max_witness_replays": 1}
 HOLDING_BOUNDS = "holding pass (SyncBank + ApplyTransactionBatchesInHolding + recordPegnetRequests) at one executing height per era (bank-limited per arrival height / V4 pooled bank / 2.0 / PIP-10), 1-2 blocks without rates before it, 1 held conversion (pUSD->pXBT or pUSD->PEG; amounts, balances, rates of both blocks symbolic) or 2 held conversions at rates 1:1, arrival heights inside and just outside the window"
 HOLDING_ASSUMPTIONS = [
-    "held batches are single conversions put into holding by the real ApplyTransactionBlock in earlier committed blocks; multi-transaction batches with a PEG request in the bank era (known legacy findings D8/D15, DESIGN §8) are outside this harness",
+    "held batches are single conversions put into holding by the real ApplyTransactionBlock in earlier committed blocks; multi-transaction batches in the bank era: a batch made of PEG requests only is the peg-batch harness (2-3 requests, rates 1:1); batches mixing a PEG request with other transactions (known legacy findings D8/D15, DESIGN §8) are outside",
     "averaging period reduced to 3 (package variable) so that the averages are those of the last rated block; rates of the executing block are the table rows InsertRates would have written",
 ]
 SYNCBLOCK = {"id": "syncblock-glue", "func": "VerifSyncBlock", "pkg": NODE, "pkgname": "node", "load": ["./node"],
@@ -90,6 +90,16 @@ BATCH_ASSUMPTIONS = [
     "SQL semantics per the store model (validated by native replays on real SQLite each run); fat103 signature validation not involved in this unit",
 ]
 
+# GetPegNetRateAverages against an absolute reference (window mean; unavailable unless enough NON-ZERO samples):
+# period 4 so that "required" is 2 and a recorded 0 next to one priced block separates samples held from samples priced
+# one held batch with 2 (q) / 2..3 (t) PEG requests of different amounts settled in the bank-limited era
+PEGBATCH = {"id": "peg-batch", "func": "VerifPegBatch", "pkg": NODE, "pkgname": "node", "load": ["./node"],
+            "params": {"quick": {"maxreq": 2}, "thorough": {"maxreq": 3}},
+            "must_cover": ["bank-exhausted", "bank-sufficient", "insufficient"], "max_witness_replays": 4}
+AVGABS = {"id": "averages-absolute", "func": "VerifAverages", "pkg": NODE, "pkgname": "node", "load": ["./node"],
+          "params": {"quick": {"period": 4, "heights": 6}, "thorough": {"period": 4, "heights": 9}},
+          "must_cover": ["three-or-more-rated", "few-rated"], "max_witness_replays": 3}
+
 PROPS = {
     # internal: engine / SQL model conformance smoke (not a property; not in MANIFEST)
     "X00": {
@@ -100,14 +110,14 @@ PROPS = {
     },
     "C03": {
         "asserts": ["C03.", "uncaught-panic"],
-        "harnesses": BATCH_HARNESSES + HOLDING_HARNESSES,
+        "harnesses": BATCH_HARNESSES + HOLDING_HARNESSES + [PEGBATCH],
         "bounds": {"quick": "applyTransactionBatch+recordBatch: 1 tx (<=2 outputs; and 3 outputs for pure transfers; output amounts are arbitrary uint64, validity is decided by the real ValidData, assets PEG/pUSD/pFCT, outputs to self/other/burn/zero address, all row-presence patterns) and exactly 2 tx (assets PEG/pUSD, outputs to self/other); height, amounts, balances (<2^62), rates, averages symbolic; CHECK constraints on and off",
                    "thorough": "1 tx over 5 assets; 1..2 tx over 3 assets with all output addresses and row patterns; exactly 3 tx over PEG/pUSD"},
         "assumptions": BATCH_ASSUMPTIONS,
     },
     "C04": {
         "asserts": ["C04.", "uncaught-panic"],
-        "harnesses": BATCH_HARNESSES + HOLDING_HARNESSES + [
+        "harnesses": BATCH_HARNESSES + HOLDING_HARNESSES + [PEGBATCH] + [
             {"id": "scheduled", "func": "VerifScheduled", "pkg": NODE, "pkgname": "node", "load": ["./node"],
              "params": {"quick": {}, "thorough": {}}, "must_cover": ["nullify-mint"], "max_witness_replays": 2}],
         "bounds": {"quick": "as C03 (same harness, supply/recipient assertions); the one-time burn of the minted remainder", "thorough": "as C03"},
@@ -119,7 +129,7 @@ PROPS = {
             {"id": "history-queries", "func": "VerifHistory", "pkg": PEG, "pkgname": "pegnet", "load": ["./node/pegnet"],
              "params": {"quick": {}, "thorough": {}}, "must_cover": ["some-actions", "no-actions"], "max_witness_replays": 8},
             APIREADS,
-        ] + TXBLOCK_HARNESSES[:1] + HOLDING_HARNESSES[:1] + BATCH_HARNESSES[:1] + [BATCH_HARNESSES[3]] + [
+        ] + TXBLOCK_HARNESSES[:1] + HOLDING_HARNESSES[:1] + [PEGBATCH] + BATCH_HARNESSES[:1] + [BATCH_HARNESSES[3]] + [
             {"id": "rewards", "func": "VerifRewards", "pkg": NODE, "pkgname": "node", "load": ["./node"],
              "params": {"quick": {"maxwinners": 2}, "thorough": {"maxwinners": 3}}, "must_cover": ["winners"], "max_witness_replays": 2},
             {"id": "scheduled", "func": "VerifScheduled", "pkg": NODE, "pkgname": "node", "load": ["./node"],
@@ -167,7 +177,7 @@ PROPS = {
              "replay_mode": "order", "native_repeat": 24},
             {"id": "staking-order", "func": "VerifSnapshot", "pkg": NODE, "pkgname": "node", "load": ["./node"],
              "params": {"quick": {"both": 2, "extras": 0, "assets": 1, "order": 1, "positive": 1, "permute_budget": 1, "fixrates": 1},
-                        "thorough": {"both": 3, "extras": 0, "assets": 1, "order": 1, "positive": 1, "permute_budget": 1, "fixrates": 1}},
+                        "thorough": {"both": 2, "extras": 0, "assets": 1, "order": 1, "positive": 1, "permute_budget": 1, "fixrates": 1}},
              "must_cover": ["paid", "capped", "uncapped"], "replay_mode": "order", "native_repeat": 24, "max_witness_replays": 3},
             {"id": "averages", "func": "VerifAverages", "pkg": NODE, "pkgname": "node", "load": ["./node"],
              "params": {"quick": {"period": 3, "heights": 6}, "thorough": {"period": 4, "heights": 9}},
@@ -182,7 +192,7 @@ PROPS = {
         ],
         "wall": {"quick": 400, "thorough": 3000},
         "bounds": {"quick": "(process history) the averaging cache of a daemon that lived through the chain vs one restarted before any rated block, as C09; order oracle = any permutation of one map iteration or one unstable sort per run (deviation budget 1); supply set with <=2 requests; SnapshotPayouts with 2 eligible stakers (1 asset, concrete rates, symbolic balances incl. exact ties)",
-                   "thorough": "3 requests / 3 stakers"},
+                   "thorough": "3 requests; stakers as quick (3 eligible stakers under the order oracle did not finish within the 50 min wall limit: reduced bound, stated; 3 stakers in canonical order are explored by C14's allocation variant)"},
         "assumptions": ["map iteration order, unstable-sort order and the wall clock (time.Now: a fresh symbolic instant per call) are the process-dependent inputs modelled; goroutine scheduling in multiFetch and tie handling inside the grader dependency are outside (DESIGN §9)",
                         "SQLite row order of SELECT without ORDER BY is a function of table content (row ids)"],
     },
@@ -294,6 +304,9 @@ PROPS = {
             {"id": "staker-binding", "func": "VerifStakerBinding", "pkg": NODE, "pkgname": "node", "load": ["./node"],
              "params": {"quick": {}, "thorough": {}}, "must_cover": ["holder-signed", "names-a-holder-signed-by-another-key", "names-no-holder"], "max_witness_replays": 4},
              SYNCBLOCK,
+             # the records of a block reach the graders through multiFetch: a failed entry request must fail the
+             # block (it is retried), never hand the graders a block with a record missing
+             MULTIFETCH,
         ],
         "bounds": {"quick": "ApplyGradedOPRBlock / ApplyGradedSPRBlock with an arbitrary verdict of 0..3 winners (payouts 0..2^58, payout address one of two addresses or unparsable), symbolic height and block time, prior balances symbolic; ApplyFactoidBlock over a factoid block of 1..2 transactions of arbitrary shape (0..2 FCT inputs, 0..1 FCT outputs, 0..2 EC outputs, to the burn address or elsewhere, EC amount 0 or not); one real signed staking record naming a holder / non-holder, signed by the holder's key / another key, through the real GradeS",
                    "thorough": "0..4 winners"},
@@ -347,7 +360,7 @@ PROPS = {
             {"id": "admit-cross", "func": "VerifAdmit", "pkg": NODE, "pkgname": "node", "load": ["./node"], "thorough_only": True,
              "params": {"quick": {"matrix": 0}, "thorough": {"matrix": 0}},
              "must_cover": ["must-reject", "must-drop", "must-execute"], "max_witness_replays": 3},
-        ] + HOLDING_HARNESSES[:1],
+        ] + HOLDING_HARNESSES[:1] + [AVGABS],
         "wall": {"quick": 300, "thorough": 3000},
         "bounds": {"quick": "one conversion; (3 sources x all 62 destinations) + (all 62 sources x 3 destinations); height uint32 from the tx activation on, amount/balance < 2^62, rates/averages uint64 incl. 0",
                    "thorough": "full 62x62 asset matrix for a conversion that is the only transaction of its batch (the full matrix with a preceding transfer in the batch did not finish within the path cap: reduced, stated; the preceding-transfer position is explored on the quick tier's 3x62 + 62x3 cross, which the thorough tier runs as well)"},
@@ -359,7 +372,7 @@ PROPS = {
         "harnesses": [
             {"id": "supply-3", "func": "VerifSupply", "pkg": CONV, "pkgname": "conversions", "load": ["./node/conversions"],
              "params": {"quick": {"maxreq": 3, "order": 0}, "thorough": {"maxreq": 3, "order": 0}}, "must_cover": ["fits", "limited"]},
-        ] + HOLDING_HARNESSES,
+        ] + HOLDING_HARNESSES + [PEGBATCH],
         "bounds": {"quick": "ConversionSupplySet: 1..3 requests, bank and requests full uint64 (4 requests: the solver answers unknown on the dust bound after 20 min - reduced bound, stated)", "thorough": "1..4 requests"},
         "assumptions": ["math/big as mathematical integers; txids concrete and well-formed"],
     },
@@ -372,7 +385,7 @@ PROPS = {
     },
     "C06": {
         "asserts": ["C06.", "uncaught-panic"],
-        "harnesses": TXBLOCK_HARNESSES + HOLDING_HARNESSES + [SYNCBLOCKFAULT],
+        "harnesses": TXBLOCK_HARNESSES + HOLDING_HARNESSES + [SYNCBLOCKFAULT, SYNCBLOCK],
         "bounds": {"quick": "as C05 (same harness; duplicates within a block, across adjacent blocks, of executed/pending/rejected entries); plus a whole block with content (winners, rates, a held conversion, a transfer) retried after a failed DB call", "thorough": "as C05"},
         "assumptions": TXBLOCK_ASSUMPTIONS,
     },
@@ -391,7 +404,7 @@ PROPS = {
         "harnesses": [
             {"func": "VerifConvert", "pkg": CONV, "pkgname": "conversions", "load": ["./node/conversions"],
              "must_cover": ["specified-error", "overflow-error", "converted-pip10", "converted-legacy"]},
-        ] + HOLDING_HARNESSES + TXBLOCK_HARNESSES[:1] + [SYNCBLOCK, BATCH_HARNESSES[1], RESTARTCHAIN],
+        ] + HOLDING_HARNESSES + TXBLOCK_HARNESSES[:1] + [SYNCBLOCK, BATCH_HARNESSES[1], RESTARTCHAIN, AVGABS],
         "bounds": {"quick": "Convert: amount int64, four rates uint64, height uint32 - full ranges, no loop"},
         "assumptions": ["math/big modelled as mathematical integers (Div/Quo by q,r form)"],
     },
